@@ -172,8 +172,14 @@ func (c *Ctx) newFsWorld(ro *Roles) (*fsWorld, *entryWorld, string) {
 		switch method {
 		case "ToBytes":
 			return ip.mkSlice([]AV{kInt('e'), kInt('v'), kInt('\n')}), true
-		case "Write": // an io.Writer stream (os.Stderr as an interface)
-			return TupleV{kInt(int64(sliceLen(args[0]))), NilV{}}, true
+		case "Write", "Sync", "Close", "WriteString", "Name":
+			// a file handle behind an interface (io.Writer, io.Closer, a helper taking interfaces)
+			if strings.HasPrefix(recv.Name, "fd") {
+				return ip.OnOS(ip, "(*os.File)."+method, append([]AV{recv}, args...))
+			}
+			if method == "Write" { // some other stream (os.Stderr as an io.Writer)
+				return TupleV{kInt(int64(sliceLen(args[0]))), NilV{}}, true
+			}
 		}
 		return nil, false
 	}
@@ -214,6 +220,53 @@ func (c *Ctx) checkFileAppenderSemantics(r *Report, ro *Roles, rule string) map[
 		}
 		findFields(st, nil)
 		if holders == 0 {
+			// a stream appender (console): one write of the whole line to the package-level stream per call
+			if strings.Contains(T.Obj().Name(), "Discard") {
+				continue
+			}
+			key := rule + ":" + T.Obj().Name()
+			ip := newInterp(c)
+			var writes []string
+			for _, m := range c.LogS.Members {
+				if g, ok := m.(*ssa.Global); ok && isNamed(g.Type().(*types.Pointer).Elem(), "io", "Writer") {
+					ip.Globals[g] = ip.newObj(&IfaceV{T: types.NewPointer(T), V: &Sym{Name: "stream:" + g.Name()}})
+				}
+			}
+			ip.OnInvoke = func(ip *Interp, recv *Sym, method string, args []AV) (AV, bool) {
+				switch method {
+				case "Write":
+					writes = append(writes, string(avBytes(args[0])))
+					return TupleV{kInt(int64(sliceLen(args[0]))), NilV{}}, true
+				case "ToBytes":
+					return ip.bytesAV([]byte("ev\n")), true
+				}
+				return nil, false
+			}
+			av := ip.zeroOf(T).(*StructV)
+			fillStruct(ip, av, T, func(parent *types.Struct, f *types.Var) (AV, bool) {
+				if layI != nil && types.Identical(f.Type(), layI) {
+					return &IfaceV{T: types.NewPointer(T), V: &Sym{Name: "layout"}}, true
+				}
+				return nil, false
+			})
+			fn, path := c.methodWithPath(T, "Write")
+			if fn == nil {
+				continue
+			}
+			_, err := ip.Run(fn, []AV{&Ptr{O: ip.newObj(av), Path: path}, ip.bytesAV([]byte("line\n"))}, nil)
+			switch {
+			case err != nil:
+				if _, isOOD := err.(oodError); isOOD || harnessPanic(err) {
+					r.Inconclusive(key, "%v", err)
+				} else {
+					r.Fail(key, c.pos(T.Obj().Pos()), "Write: %v", err)
+				}
+			case len(writes) != 1 || writes[0] != "line\n":
+				r.Fail(key, c.pos(T.Obj().Pos()), "a line is written to the stream as %q (want one write of the whole line)", writes)
+			default:
+				res[T.Obj().Name()] = true
+				r.OK(key, "Write hands the whole line to the stream in one write")
+			}
 			continue
 		}
 		key := rule + ":" + T.Obj().Name()
@@ -527,7 +580,8 @@ func fileAppenderDecisions(r *Report, ok map[string]bool) {
 		}
 		switch r.Prop {
 		case "C13":
-			r.Decide([]string{"C13.name:", "C13.flags:", "C13.rotate-first:", "C13.boundary:", "C13.anchor:", "C05.fd-bound:"}, match, tn+" evaluated step by step over a scripted clock and file system")
+			r.Decide([]string{"C13.name:", "C13.flags:", "C13.rotate-first:", "C13.boundary:", "C05.fd-bound:"}, match, tn+" evaluated step by step over a scripted clock and file system")
+			r.Decide([]string{"C13.anchor:"}, nil, tn+" evaluated step by step over a scripted clock and file system")
 			r.Decide([]string{"C13.cas:"}, func(k string) bool { return match(k) && strings.HasSuffix(k, ":publish") }, tn+" evaluated: the created file is published")
 		case "C19":
 			r.Decide([]string{"C19.keep-file:", "C19.nil-file:", "C19.retention-async:", "C19.anchor:", "C05.fd-bound:"}, nil, tn+" evaluated across a boundary at which the next file cannot be created")
@@ -535,6 +589,9 @@ func fileAppenderDecisions(r *Report, ok map[string]bool) {
 			r.Decide([]string{"C05.close-all:", "C05.fd-bound:"}, match, tn+" evaluated: descriptors open between calls and after Stop")
 		case "C03":
 			r.Decide([]string{"C03.single-write:", "C03.append-flag:"}, match, tn+" evaluated: one write per line, append mode")
+			if rot != "" && ok[rot] {
+				r.Decide([]string{"C03.anchor:"}, func(k string) bool { return strings.Contains(k, "OpenFile") }, "file appenders evaluated")
+			}
 		case "C20":
 			r.Decide([]string{"C20.direct:", "C05.fd-bound:"}, match, tn+" evaluated: the line is written before the call returns")
 		case "C14":
